@@ -760,12 +760,20 @@ class gen_lock:
     C17 holds this lock from the regeneration to the end of its Lean build, so that a concurrent run against another
     tree cannot swap the text under the build."""
 
+    def __init__(self, blocking=True):
+        self.blocking = blocking
+        self.held = False
+
     def __enter__(self):
         import fcntl
         d = os.path.join(VERIF, ".cache")
         os.makedirs(d, exist_ok=True)
         self.f = open(os.path.join(d, "gen-rng.lock"), "w")
-        fcntl.flock(self.f, fcntl.LOCK_EX)
+        try:
+            fcntl.flock(self.f, fcntl.LOCK_EX | (0 if self.blocking else fcntl.LOCK_NB))
+            self.held = True
+        except OSError:
+            self.held = False
         return self
 
     def __exit__(self, *a):
@@ -778,7 +786,11 @@ def generate(root=None, lock=True):
     """Write Gen/Rng.lean (only when the text changes, so that lake does not rebuild needlessly).
     Returns (path, changed_relative_to_golden)."""
     if lock:
-        with gen_lock():
+        # called by ./setup and at the start of every check (translate/regen.py): when a check of C17 is building with
+        # its own text right now, leave the file alone (that check regenerates it itself, under the lock)
+        with gen_lock(blocking=False) as g:
+            if not g.held:
+                return OUT, False
             return generate(root, lock=False)
     txt = render(root)
     os.makedirs(os.path.dirname(OUT), exist_ok=True)
